@@ -1,7 +1,7 @@
 //! C17 batch: the threaded `new` scenarios (decided by schedule/fault
 //! search, engine E2) followed by the parser workload (sampled, engine E1).
 
-use super::crashcase::gen_crash_case;
+use super::crashcase::{chain_boundary_case, gen_crash_case, CHAIN_ENUM};
 use super::newplans::{c17_new_enumerated, c17_new_seeded, C17_NEW_ENUM};
 use super::AnyCase;
 use crate::framework::Plan;
@@ -16,17 +16,20 @@ pub struct C17Plan {
 
 impl Plan for C17Plan {
     fn total(&self) -> usize {
-        C17_NEW_ENUM + self.seeded_new + self.seeded_crash
+        C17_NEW_ENUM + CHAIN_ENUM + self.seeded_new + self.seeded_crash
     }
     fn enumerated(&self) -> usize {
-        C17_NEW_ENUM
+        C17_NEW_ENUM + CHAIN_ENUM
     }
     fn case(&self, idx: usize) -> AnyCase {
         if idx < C17_NEW_ENUM {
             return AnyCase::New(c17_new_enumerated(idx));
         }
+        if idx < C17_NEW_ENUM + CHAIN_ENUM {
+            return AnyCase::Crash(chain_boundary_case(idx - C17_NEW_ENUM));
+        }
         let mut rng = Rng::new(run_seed(self.seed, 0xC17, idx as u64));
-        if idx < C17_NEW_ENUM + self.seeded_new {
+        if idx < C17_NEW_ENUM + CHAIN_ENUM + self.seeded_new {
             AnyCase::New(c17_new_seeded(&mut rng))
         } else {
             AnyCase::Crash(gen_crash_case(&mut rng))
@@ -37,7 +40,7 @@ impl Plan for C17Plan {
             "Case i is a pure function of (VERIF_SEED, i). (i) Decided by schedule/fault search, engine E2: [0,{C17_NEW_ENUM}) worker counts \
              {{0..8,16,32,64}} x 14 argument tuples (valid search; entropy failure at request 0 / 1; malformed and out-of-range --vanity-hd-path; account indices \
              2^31, 2^32-1, 2^32, 2^64-1, 2^64; upper-case prefix; 13 words) and then seeded `new` scenarios (junk numbers, paths, prefixes, lengths, languages, \
-             0..4 planned entropy responses incl. failures, scheduler policy random/sticky/PCT-like); invariant: no task panics, no deadlock before exit, exit within \
+             0..4 planned entropy responses incl. failures, scheduler policy random/sticky/PCT-like); then 56 enumerated legacy transactions with the chain id at the EIP-155 v-overflow limit (2^256-37)/2 -3..+3, decimal and hex, through `hash transaction --signature` with both parities and `sign transaction`; invariant: no task panics, no deadlock before exit, exit within \
              16*(workers+2) steps once every entropy response matches, step budget 200+40*(plan+workers). (ii) Sampled by the workload, engine E1 (real binary): \
              seeded boundary-biased and mutated-valid inputs for mnemonic phrases (0..40 words, valid/invalid checksum), paths and indices around 2^31/2^32/2^64 \
              (flags and environment), signature text (scalars 0,1,n-1,n,2^256-1; v 0,26..29,255; lengths 0..140), digests, transaction JSON (every numeric field at \
